@@ -129,6 +129,15 @@ func (p BinaryProtocol) Left() int {
 	return len(p.Buf) - p.Read
 }
 
+// capSize bounds an element count read from the input by the number of bytes left,
+// to be used as allocation capacity (every element takes one byte at least)
+func (p BinaryProtocol) capSize(size int) int {
+	if l := p.Left(); size > l {
+		return l
+	}
+	return size
+}
+
 /**
  * Message related methods
  */
@@ -1043,7 +1052,7 @@ func (p *BinaryProtocol) ReadAnyWithDesc(desc *TypeDescriptor, byteAsUint8 bool,
 		if et.Type() != elemType {
 			return nil, errDismatchPrimitive
 		}
-		ret := make([]interface{}, 0, size)
+		ret := make([]interface{}, 0, p.capSize(size))
 		for i := 0; i < size; i++ {
 			v, e := p.ReadAnyWithDesc(et, byteAsUint8, copyString, disallowUnknonw, useFieldName)
 			if e != nil {
@@ -1063,7 +1072,7 @@ func (p *BinaryProtocol) ReadAnyWithDesc(desc *TypeDescriptor, byteAsUint8 bool,
 			return nil, errDismatchPrimitive
 		}
 		if keyType == STRING {
-			m := make(map[string]interface{}, size)
+			m := make(map[string]interface{}, p.capSize(size))
 			for i := 0; i < size; i++ {
 				kv, e := p.ReadString(false)
 				if e != nil {
@@ -1077,7 +1086,7 @@ func (p *BinaryProtocol) ReadAnyWithDesc(desc *TypeDescriptor, byteAsUint8 bool,
 			}
 			ret = m
 		} else if keyType.IsInt() {
-			m := make(map[int]interface{}, size)
+			m := make(map[int]interface{}, p.capSize(size))
 			for i := 0; i < size; i++ {
 				kv, e := p.ReadInt(keyType)
 				if e != nil {
@@ -1381,7 +1390,7 @@ func (p *BinaryProtocol) ReadAny(typ Type, strAsBinary bool, byteAsInt8 bool) (i
 		if e != nil {
 			return nil, e
 		}
-		ret := make([]interface{}, 0, size)
+		ret := make([]interface{}, 0, p.capSize(size))
 		for i := 0; i < size; i++ {
 			v, e := p.ReadAny(elemType, strAsBinary, byteAsInt8)
 			if e != nil {
@@ -1396,7 +1405,7 @@ func (p *BinaryProtocol) ReadAny(typ Type, strAsBinary bool, byteAsInt8 bool) (i
 			return nil, e
 		}
 		if keyType == STRING {
-			ret := make(map[string]interface{}, size)
+			ret := make(map[string]interface{}, p.capSize(size))
 			for i := 0; i < size; i++ {
 				k, e := p.ReadString(false)
 				if e != nil {
@@ -1410,7 +1419,7 @@ func (p *BinaryProtocol) ReadAny(typ Type, strAsBinary bool, byteAsInt8 bool) (i
 			}
 			return ret, p.ReadMapEnd()
 		} else if keyType.IsInt() {
-			ret := make(map[int]interface{}, size)
+			ret := make(map[int]interface{}, p.capSize(size))
 			for i := 0; i < size; i++ {
 				k, e := p.ReadInt(keyType)
 				if e != nil {
@@ -1424,7 +1433,7 @@ func (p *BinaryProtocol) ReadAny(typ Type, strAsBinary bool, byteAsInt8 bool) (i
 			}
 			return ret, p.ReadMapEnd()
 		} else {
-			m := make(map[interface{}]interface{}, size)
+			m := make(map[interface{}]interface{}, p.capSize(size))
 			for i := 0; i < size; i++ {
 				k, e := p.ReadAny(keyType, strAsBinary, byteAsInt8)
 				if e != nil {
